@@ -100,6 +100,8 @@ func c19Drivers() []*icCfg {
 		// SaveCache against expiry and eviction; a loading Get against Close and the tick
 		{Name: "R1b-save-vs-tick-evict", O: small, Pre: []icOp{T(1, sec)}, Scripts: [][]icOp{{{Kind: "persist"}}, {tick}, {S(2)}}},
 		{Name: "R5b-loading-vs-close-tick", O: big, Loading: true, LoadCost: 1, LoadTTL: sec, Pre: []icOp{L(2)}, Scripts: [][]icOp{{L(1)}, {{Kind: "close"}}, {tick}}},
+		// a joined load, then another load on the same shard's group re-using the pooled call record
+		{Name: "R5c-call-record-reuse", O: big, Loading: true, LoadCost: 1, Scripts: [][]icOp{{L(1)}, {L(1)}, {L(2)}}},
 		{Name: "R5-loading", O: big, Loading: true, LoadCost: 1, Scripts: [][]icOp{{L(1), G(1)}, {L(1)}, {S(1), D(1)}}},
 		{Name: "R6-update-vs-evict", O: small, Pre: []icOp{S(1)}, Scripts: [][]icOp{{S(1), S(1)}, {S(2)}, {G(1), {Kind: "range"}}}},
 		// read buffer with every atomic a scheduling point and capacity 2 (build schedTrackBuf): drains, Free and refills overlap
